@@ -609,7 +609,7 @@ pub fn states(quick: bool) -> Vec<SaveState> {
         } else {
             (0..=255u8).collect()
         };
-        let sps: Vec<u16> = if m128 { vec![0x8000, 0xBFFE] } else { vec![0x8000, 0x4002, 0x4001, 0x4000, 0x0001, 0x0000, 0xFFFF] };
+        let sps: Vec<u16> = if m128 { vec![0x8000, 0xBFFE] } else { vec![0x8000, 0x4002, 0x4001, 0x4000, 0x0001, 0x0000, 0xFFFF, 0x8001, 0x8002, 0xC000, 0xC001, 0xC002, 0x7FFF] };
         for (k, latch) in latches.iter().enumerate() {
             for (j, sp) in sps.iter().enumerate() {
                 // the small domains rotate so that every value of each occurs with every latch/sp in thorough
@@ -704,7 +704,7 @@ pub fn run(tier: Tier, seed: u64, replay: Option<String>) -> i32 {
     ctx.note("receivers", json!(RECEIVERS.iter().map(|r| format!("{:?}", r)).collect::<Vec<_>>()));
     ctx.note("not_judged", json!("IFF1 (not carried by SNA), MEMPTR/Q, 48K PC when the two bytes below SP are ROM, the two stack bytes holding PC in a 48K file"));
     ctx.finish(
-        "save states (running, and halted on a HALT in front of the observer): two register patterns with all 26 register bytes pairwise distinct x IM x IFF2 x border x R,I in {00,7F,80,FF} x (128K) all 256 paging values reached by CPU-executed OUTs (16 in quick) x SP in {8000,4002,4001,4000,0001,0000,FFFF} (48K), RAM position-coded per bank; receivers: same machine now / 1 / 1000 instructions later, fresh, halted, between a DD prefix and its opcode, right after EI, paging locked on another bank, everything different. save_snapshot through a recording DataRecorder, load_snapshot (asset returning short reads of rotating sizes), then: registers, border, paging latch+lock+map, every RAM bank, and 24 lock-step instructions of an observer program against a pristine twin of the saved machine; registers and all RAM of the saving machine before/after the save, also when the save fails (recorders accepting 0, 1, 26, 27, 28, 16411, total-1 bytes, then Ok(0) or an error); recorders that accept 1/2/3/5/7/4095 bytes per call must receive the same file. distinct_nontrivial = (state, receiver) pairs",
+        "save states (running, and halted on a HALT in front of the observer): two register patterns with all 26 register bytes pairwise distinct x IM x IFF2 x border x R,I in {00,7F,80,FF} x (128K) all 256 paging values reached by CPU-executed OUTs (16 in quick) x SP in {8000,4002,4001,4000,0001,0000,FFFF,8001,8002,C000,C001,C002,7FFF} (48K: the stack word at and across every 16K page boundary), RAM position-coded per bank; receivers: same machine now / 1 / 1000 instructions later, fresh, halted, between a DD prefix and its opcode, right after EI, paging locked on another bank, everything different. save_snapshot through a recording DataRecorder, load_snapshot (asset returning short reads of rotating sizes), then: registers, border, paging latch+lock+map, every RAM bank, and 24 lock-step instructions of an observer program against a pristine twin of the saved machine; registers and all RAM of the saving machine before/after the save, also when the save fails (recorders accepting 0, 1, 26, 27, 28, 16411, total-1 bytes, then Ok(0) or an error); recorders that accept 1/2/3/5/7/4095 bytes per call must receive the same file. distinct_nontrivial = (state, receiver) pairs",
         false,
         &["hooks: verif_cpu, verif_ram_bank, verif_paging, verif_set_frame_clocks (to keep the INT pulse out of the continuation)"],
     )
